@@ -148,7 +148,7 @@ def oracle_taylor(case):
 
 
 def oracle_order(case):
-    """one-step error against expm(hA) y: rigorous bracket | e(h) - L | <= 1.5 N with L, N the norms of the first two
+    """one-step error against expm(hA) y: rigorous bracket | e(h) - L | <= tailf N with L, N the norms of the first two
     omitted Taylor terms, at h and h/2; when N <= 0.04 L the ratio e(h)/e(h/2) lies within 20 % of 2^(p+1)"""
     from scipy.linalg import expm
     A = mat(case['m'])
@@ -170,10 +170,17 @@ def oracle_order(case):
         L = np.linalg.norm(t)
         N = np.linalg.norm((t @ A.T) * (hh / (p + 2)))
         floor = 200 * 2.3e-16 * ynorm * A.shape[0]
-        if abs(e - L) > 1.5 * N + floor:
+        # tail of the series after the first omitted term: sum_{j>=0} |hA|^j (p+2)!/(p+2+j)! times N  (<= 1.53 for |hA| <= 1.5)
+        xh = hh * np.linalg.norm(A, 2)
+        tailf, tj = 0.0, 1.0
+        for j in range(60):
+            tailf += tj
+            tj *= xh / (p + 3 + j)
+        tailf *= 1.0 + 1e-9
+        if abs(e - L) > tailf * N + floor:
             key = K_RK if (p == 4 and np.abs(got - _buggy_rk(A, hh, y)).max() <= floor) else None
             raise Violation('%s: one-step error %.6g at h=%g is not the first omitted Taylor term %.6g (+- %.3g): the step is '
-                            'not of order %d' % (case['method'], e, hh, L, 1.5 * N + floor, p), key)
+                            'not of order %d' % (case['method'], e, hh, L, tailf * N + floor, p), key)
         es.append(e); Ls.append(L); Ns.append(N)
     if Ns[0] <= 0.04 * Ls[0] and Ls[1] > 1e4 * 2.3e-16 * ynorm * A.shape[0]:
         ratio = es[0] / es[1]
